@@ -42,7 +42,12 @@ def generate(rng, tier, index):
         sched["p"] = s.choice([0.001, 0.003, 0.02, 0.1])
         K = rng.derive("k").randint(2, 4)
         progs = []
-        fams = rng.derive("fam").sample(A_INTEGS, K)
+        fr = rng.derive("fam")
+        fams = fr.sample(A_INTEGS, K)
+        if fr.chance(0.6):
+            # hidden process-wide state is most likely shared between simulations of the SAME integrator family: run two or more of one family side by side
+            for k in range(1, fr.randint(2, K) if K > 2 else 2):
+                fams[k] = fams[0]
         for k in range(K):
             c = rng.derive("cfg", k)
             cfg = simgen.gen_planetary_config(c, integrators=[fams[k]], nmin=2, nmax=5, allow_var=c.chance(0.3))
